@@ -53,6 +53,7 @@ def nonzero_e(p):
 
 def build(tier="quick", seed=0):
     b = Bundle("C11")
+    b.const_values[G] = 6.6743e-11
     for F, dual in ((FS, False), (FD, True)):
         tag = "dual" if dual else "single"
         args = dict(semi_major_axis=a, orbital_motion=n, mass_1=M1, dU_dM_1=dM1, mass_2=M2)
